@@ -607,11 +607,28 @@ func runLBHealth(x *X) {
 			x.WaitFor(onErr, ts...)
 		case 10: // the operator switches the strategy: health state and its reporting carry over
 			ns := strategies[c.Intn(5, "new-strategy")]
-			x.Do("set-strategy", func() {
-				if err := h.lb.SetStrategy(ns); err != nil {
-					panic(err)
+			if c.Intn(2, "switch-under-traffic") == 1 {
+				// the switch happens while requests are choosing their backend: whatever the balancer
+				// does in between, a request never finds the pool empty
+				k := 2 + c.Intn(4, "switch-racers")
+				s.Spawn("set-strategy", func() {
+					if err := h.lb.SetStrategy(ns); err != nil {
+						panic(err)
+					}
+				})
+				for j := 0; j < k; j++ {
+					cl := manyClients[(i+3*j)%len(manyClients)]
+					s.Spawn("switch-racer", func() { h.do(reqSpec{client: cl, path: "/during-the-switch"}) })
 				}
-			}, onErr)
+				x.RunTasks(onErr)
+				x.Probe("strategy-switch-under-traffic")
+			} else {
+				x.Do("set-strategy", func() {
+					if err := h.lb.SetStrategy(ns); err != nil {
+						panic(err)
+					}
+				}, onErr)
+			}
 			strategy = ns
 			steps = append(steps, "strategy("+ns+")")
 			x.Logf("step strategy %s", ns)
